@@ -16,17 +16,18 @@ import (
 
 // divider wrapper: logs the arguments of every call, can make one call misbehave
 type dividerProbe struct {
-	mu      sync.Mutex
-	base    divider.Divider
-	count   int
-	faultAt int
-	delta   int64
-	outside bool
-	all     []uint              // configured priorities, highest first
-	seg     map[string]struct{} // distinct calls since the last driver operation
-	order   []string
-	bad     []string // contract violations seen (arguments not sorted/distinct, nil map)
-	noop    bool     // the faulty call had nothing to perturb
+	mu       sync.Mutex
+	base     divider.Divider
+	count    int
+	faultAt  int
+	delta    int64
+	outside  bool
+	all      []uint              // configured priorities, highest first
+	seg      map[string]struct{} // distinct calls since the last driver operation
+	order    []string
+	bad      []string // contract violations seen (arguments not sorted/distinct, nil map)
+	noop     bool
+	harmless bool // the faulty call had nothing to perturb
 }
 
 func (dp *dividerProbe) divide(priorities []uint, dividend uint, distribution map[uint]uint) {
@@ -56,6 +57,10 @@ func (dp *dividerProbe) divide(priorities []uint, dividend uint, distribution ma
 	delta := dp.delta
 	dp.mu.Unlock()
 
+	before := uint(0)
+	for _, q := range distribution {
+		before += q
+	}
 	dp.base(priorities, dividend, distribution)
 
 	if fault && (len(priorities) != 0 || dp.outside) && distribution != nil {
@@ -88,6 +93,15 @@ func (dp *dividerProbe) divide(priorities []uint, dividend uint, distribution ma
 			distribution[p0] -= uint(-delta)
 		} else {
 			distribution[p0] = 0
+		}
+		after := uint(0)
+		for _, q := range distribution {
+			after += q
+		}
+		if after == 0 || after-before == dividend {
+			dp.mu.Lock()
+			dp.harmless = true // the perturbed result still passes the sum rule (e.g. +H on an empty list with dividend H)
+			dp.mu.Unlock()
 		}
 	}
 }
@@ -319,6 +333,8 @@ func runPrio2Bubble(sc scenario) result {
 		faultHit = 1
 		if probe.noop {
 			faultHit = 2
+		} else if probe.harmless {
+			faultHit = 4
 		}
 	}
 	probe.mu.Unlock()
